@@ -62,22 +62,57 @@ def _val(ctx: Ctx, fi: FuncInfo, e: ast.AST, env=None):
 
 
 def atoms(ctx: Ctx, fi: FuncInfo, test: ast.AST, pol: bool, env=None) -> list[Constraint]:
+    """_atoms plus the other spellings of each zero / emptiness test, so that a
+    rule written against `not x` also reads `x == 0`, `len(x) == 0`, `len(x) < 1`."""
+    out = []
+    for c in _atoms(ctx, fi, test, pol, env):
+        out.append(c)
+        for s_, o_, v_ in _spellings(c):
+            out.append(Constraint(s_, o_, v_, c.node, c.value_text, c.facts, c.from_fact))
+    return out
+
+
+def _spellings(c: Constraint):
+    inner = c.subject[4:-1] if c.subject.startswith("len(") and c.subject.endswith(")") and c.subject.count("(") == c.subject[4:-1].count("(") + 1 else None
+    zero = isinstance(c.value, int) and not isinstance(c.value, bool)
+    empty = None
+    if c.op == "truthy":
+        empty = False
+        yield c.subject, "!=", 0
+    elif c.op == "falsy":
+        empty = True
+        yield c.subject, "==", 0
+    elif zero and ((c.op == "==" and c.value == 0) or (c.op == "<" and c.value == 1) or (c.op == "<=" and c.value == 0 and inner is not None)):
+        empty = True
+        yield c.subject, "falsy", None
+        if c.op != "==":
+            yield c.subject, "==", 0
+    elif zero and ((c.op == "!=" and c.value == 0) or (inner is not None and ((c.op == ">" and c.value == 0) or (c.op == ">=" and c.value == 1)))):
+        empty = False
+        yield c.subject, "truthy", None
+        if c.op != "!=":
+            yield c.subject, "!=", 0
+    if empty is not None and inner is not None:
+        yield inner, "falsy" if empty else "truthy", None
+
+
+def _atoms(ctx: Ctx, fi: FuncInfo, test: ast.AST, pol: bool, env=None) -> list[Constraint]:
     """Atomic constraints that hold when `test` evaluates to `pol`, for the
     shapes where that decomposition is exact or an implication."""
     if isinstance(test, ast.UnaryOp) and isinstance(test.op, ast.Not):
-        return atoms(ctx, fi, test.operand, not pol, env)
+        return _atoms(ctx, fi, test.operand, not pol, env)
     if isinstance(test, ast.BoolOp):
         conj = isinstance(test.op, ast.And)
         if conj == pol:
             # (a and b) true -> a true, b true ; (a or b) false -> a false, b false
             out = []
             for v in test.values:
-                out += atoms(ctx, fi, v, pol, env)
+                out += _atoms(ctx, fi, v, pol, env)
             return out
         # (a or b) true / (a and b) false: a disjunction -- each disjunct is *a* way to get here
         out = []
         for v in test.values:
-            for c in atoms(ctx, fi, v, pol, env):
+            for c in _atoms(ctx, fi, v, pol, env):
                 c.value_text = (c.value_text + " |disj").strip()
                 out.append(c)
         return out
@@ -177,6 +212,11 @@ def has(cons: list[Constraint], subject: str | None, op: str, value: Any = UNKNO
         c = _has(cons, s_, o_, v_, subject_contains)
         if c is not None:
             return c
+    if op == "!=" and subject is not None:
+        # x != y spelled as (x < y or x > y)
+        lo, hi = (_has(cons, subject, o, value, None) for o in ("<", ">"))
+        if lo is not None and hi is not None:
+            return lo
     if op == "not in" and isinstance(value, frozenset) and 0 < len(value) <= 4 and subject is not None:
         parts = [_has(cons, subject, "!=", v, None) for v in value]
         if all(p is not None for p in parts):
